@@ -107,7 +107,8 @@ Definition dispatch (W : nat) (lease : bool) (s : rstate) (w : wire) (c : conten
            then (mark W (set_epoch s (e + 1)) w, [OMark e q])
            else (s, [])
   | CApp p =>
-      if e =? 0 then (s, [OAlert alert_fatal desc_unexpected_message; OErr])
+      (* unprotected application data is refused silently *)
+      if e =? 0 then (s, [])
       else (mark W s w, [OMark e q; ODeliver p e q])
   | CRrc =>
       if (e =? 0) || negb (r_rrc s) then (s, [OAlert alert_fatal desc_unexpected_message; OErr])
@@ -138,9 +139,10 @@ Definition recv (W : nat) (lease : bool) (s : rstate) (w : wire) : rstate * list
   (* decryptLegacyPacket *)
   if negb (r_init s) then (enqueue lease s w, [])
   else if negb (len (r_cid s) =? 0) && negb (w_ctype w =? ct_cid) then (s, [])
-  (* every cipher suite's Decrypt returns change_cipher_spec records unchanged: a CCS-typed
-     record is taken as cleartext whatever its epoch *)
-  else if w_ctype w =? ct_ccs then dispatch W lease s w (ccs_view (w_clear w))
+  (* every cipher suite's Decrypt returns change_cipher_spec records unchanged, so a CCS-typed
+     record claiming a protected epoch is never authenticated: handleChangeCipherSpecRecord (and
+     handleIncomingPacket for an undecodable body) discards it *)
+  else if w_ctype w =? ct_ccs then (s, [])
   else match w_auth w with
        | None => (s, [])
        | Some c =>
@@ -154,8 +156,12 @@ Definition recv (W : nat) (lease : bool) (s : rstate) (w : wire) : rstate * list
 Definition unprotected_alert (w : wire) : bool :=
   (w_epoch w =? 0) && match w_clear w with CAlert _ _ => true | _ => false end.
 
+(* a ChangeCipherSpec only ends the peer's epoch 0 while the handshake runs *)
+Definition unprotected_ccs (w : wire) : bool :=
+  (w_epoch w =? 0) && match w_clear w with CCCS => true | _ => false end.
+
 Definition recv_est (est : bool) (W : nat) (lease : bool) (s : rstate) (w : wire) : rstate * list out :=
-  if est && unprotected_alert w then (s, []) else recv W lease s w.
+  if est && (unprotected_alert w || unprotected_ccs w) then (s, []) else recv W lease s w.
 
 Inductive op :=
 | Arrive (w : wire)      (* a record read from the socket *)
